@@ -90,6 +90,31 @@ func modelQueries(o *Obligation, asserts []*Term) []*Term {
 		if t.hasBV || seen[t.id] {
 			return
 		}
+		// reads of element arrays through updated heaps: also ask for the initial contents at that place
+		if t.Op == "select" && !strings.HasPrefix(t.Sort, "(Array") && t.Args[0].Op == "select" && !rootIsInit(t) {
+			inner := t.Args[0]
+			base := inner.Args[0]
+			for base.Op == "store" || base.Op == "ite" {
+				if base.Op == "store" {
+					base = base.Args[0]
+				} else {
+					base = base.Args[2]
+				}
+			}
+			if len(base.Args) == 0 && strings.HasPrefix(base.Op, "H.elems") {
+				q := Select(Select(base, inner.Args[1]), t.Args[1])
+				if !seen[q.id] && !q.hasBV {
+					seen[q.id] = true
+					extra = append(extra, q)
+					for _, ix := range []*Term{inner.Args[1], t.Args[1]} {
+						if !ix.IsConst() && !seen[ix.id] {
+							seen[ix.id] = true
+							extra = append(extra, ix)
+						}
+					}
+				}
+			}
+		}
 		switch {
 		case t.Op == "select" && rootIsInit(t) && !strings.HasPrefix(t.Sort, "(Array"):
 			seen[t.id] = true
@@ -97,6 +122,10 @@ func modelQueries(o *Obligation, asserts []*Term) []*Term {
 			if !t.Args[1].IsConst() && !seen[t.Args[1].id] {
 				seen[t.Args[1].id] = true
 				extra = append(extra, t.Args[1])
+			}
+			if t.Args[0].Op == "select" && !t.Args[0].Args[1].IsConst() && !seen[t.Args[0].Args[1].id] {
+				seen[t.Args[0].Args[1].id] = true
+				extra = append(extra, t.Args[0].Args[1])
 			}
 		case (t.Op == "gs.len" || t.Op == "gs.at") && len(t.Args) > 0 && len(t.Args[0].Args) == 0 && strings.HasPrefix(t.Args[0].Op, "in."):
 			seen[t.id] = true
@@ -170,6 +199,21 @@ func (p *Proof) scriptQ(o *Obligation, qfOnly bool) string {
 	qs := modelQueries(o, asserts)
 	if !qfOnly {
 		o.Queries = qs
+		if !o.IsCover {
+			// a second script that asks for a small counterexample (lengths bounded), for replay
+			var small []*Term
+			lim := BVInt(1<<16, 64)
+			for _, q := range qs {
+				if q.Op == "gs.len" || strings.HasSuffix(q.Op, "_len!1") || (q.Op == "select" && len(q.Args[0].Args) == 0 && strings.HasSuffix(q.Args[0].Op, "%len")) {
+					if q.Sort == SBV(64) {
+						small = append(small, BVSle(q, lim))
+					}
+				}
+			}
+			if len(small) > 0 {
+				o.SmallScript = Script(append(append([]*Term{}, asserts...), small...), nil, qs)
+			}
+		}
 	}
 	return Script(asserts, nil, qs)
 }
@@ -226,7 +270,13 @@ func discharge(results []*ProofResult, timeoutS int, all bool, verbose bool) {
 					j.o.Status = "disagree"
 				}
 				if best.Status == "sat" {
-					j.o.Model = parseModelPos(best.Output, j.o.Queries)
+					j.o.Model, j.o.RawModel = parseModelPos(best.Output, j.o.Queries)
+					if !j.o.IsCover && j.o.SmallScript != "" {
+						if b2, _, _ := solveRace(j.o.SmallScript, 10, false); b2.Status == "sat" {
+							j.o.Model, j.o.RawModel = parseModelPos(b2.Output, j.o.Queries)
+							j.o.Solver = b2.Solver + "(small model)"
+						}
+					}
 				}
 				_ = rs
 				if best.Status != "sat" && best.Status != "unsat" && len(j.o.Parts) > 0 {
@@ -249,7 +299,8 @@ func discharge(results []*ProofResult, timeoutS int, all bool, verbose bool) {
 							j.o.Status = b2.Status
 							j.o.Solver = b2.Solver
 							if b2.Status == "sat" {
-								j.o.Model = parseModelPos(b2.Output, pt.Queries)
+								j.o.Model, j.o.RawModel = parseModelPos(b2.Output, pt.Queries)
+								j.o.Queries = pt.Queries
 								j.o.Script = pt.Script
 							}
 							break
@@ -422,11 +473,12 @@ func describeTerm(t *Term) string {
 }
 
 // parseModelPos pairs the values of a get-value answer with the queried terms by position.
-func parseModelPos(out string, queries []*Term) map[string]string {
+func parseModelPos(out string, queries []*Term) (map[string]string, map[int]string) {
 	m := map[string]string{}
+	raw := map[int]string{}
 	i := strings.Index(out, "\n")
 	if i < 0 {
-		return m
+		return m, raw
 	}
 	toks := sexpTokens(out[i+1:])
 	depth := 0
@@ -449,6 +501,7 @@ func parseModelPos(out string, queries []*Term) map[string]string {
 				if len(inner) >= 2 && k < len(queries) {
 					_, rest := splitFirstSexp(inner)
 					m[describeTerm(queries[k])] = strings.Join(rest, " ")
+					raw[queries[k].id] = strings.Join(rest, " ")
 				}
 				k++
 				cur = nil
@@ -459,7 +512,7 @@ func parseModelPos(out string, queries []*Term) map[string]string {
 			}
 		}
 	}
-	return m
+	return m, raw
 }
 
 // parseModel extracts (term value) pairs from a get-value answer.
